@@ -16,6 +16,8 @@ def _work(job):
     ob, prof, sl, timeout, pts, seed, cross = job
     prog = _PROGS[prof]
     try:
+        if ob.custom is not None:
+            return ob.custom(prog, ob, prof == 'on', _QDIR, timeout, cross)
         return oblig.run_slice(prog, ob, sl, prof == 'on', _QDIR, timeout, validate_points=pts, seed=seed, cross_check=cross)
     except Exception as e:
         return {'fn': ob.fn, 'kind': ob.kind, 'profile': 'overflow-checks=' + prof, 'slice': sl, 'verdict': 'inconclusive',
@@ -98,16 +100,21 @@ def run_property(pid, tier, seed, only=None):
     # ---- counterexamples found under an over-approximating abstraction (uninterpreted oracle functions) may be
     # spurious: re-decide those obligations with the abstraction expanded before anything is reported
     def check_native(rec):
-        line = replay_native(sc, rec['fn'], rec['model_args'], rec['profile'].endswith('on'))
+        line = replay_native(sc, rec.get('replay_fn', rec['fn']), rec['model_args'], rec['profile'].endswith('on'))
         rec['native_replay'] = line
         return violates(rec['kind'], line)
     redo = []
     for i, rec in enumerate(recs):
-        if rec['verdict'] == 'counterexample' and any('/uf' in a for a in rec.get('abstractions', [])) and not check_native(rec):
+        if rec['verdict'] == 'counterexample' and jobs[i][0].custom is None and any('/uf' in a for a in rec.get('abstractions', [])) and not check_native(rec):
             ob = jobs[i][0]
             import copy
             ob2 = copy.copy(ob); ob2.abstractions = tuple(a for a in ob.abstractions if '/uf' not in a)
             redo.append((i, (ob2, jobs[i][1], jobs[i][2], jobs[i][3], None, seed, jobs[i][6])))
+    for i, rec in enumerate(recs):
+        if rec['verdict'] == 'counterexample' and jobs[i][0].custom is not None and 'model_args' in rec and not check_native(rec):
+            import copy
+            ob2 = copy.copy(jobs[i][0]); ob2.opts = dict(ob2.opts, realistic=True)
+            redo.append((i, (ob2, jobs[i][1], jobs[i][2], max(jobs[i][3], 600), None, seed, jobs[i][6])))
     if redo:
         log('[%s] re-deciding %d obligations without the uninterpreted-oracle abstraction (spurious models)' % (pid, len(redo)))
         with ctxm.Pool(min(nproc, len(redo))) as pool:
@@ -122,7 +129,7 @@ def run_property(pid, tier, seed, only=None):
         if v == 'holds': held += 1
         elif v == 'counterexample':
             prof_on = rec['profile'].endswith('on')
-            line = replay_native(sc, rec['fn'], rec['model_args'], prof_on)
+            line = replay_native(sc, rec.get('replay_fn', rec['fn']), rec['model_args'], prof_on)
             rec['native_replay'] = line
             if violates(rec['kind'], line):
                 violations.append(rec)
@@ -191,8 +198,9 @@ def run_property(pid, tier, seed, only=None):
             key = (r['fn'], r['profile'])
             if key in seen: continue
             seen.add(key)
-            path = os.path.join(rdir, '%s_%s_%s.json' % (pid, r['fn'], 'on' if r['profile'].endswith('on') else 'off'))
-            json.dump({'property': pid, 'fn': r['fn'], 'kind': r['kind'], 'profile': r['profile'], 'args': r['model_args'], 'model': r.get('model'),
+            import re as _re
+            path = os.path.join(rdir, '%s_%s_%s.json' % (pid, _re.sub(r'[^A-Za-z0-9_]+', '_', r['fn']).strip('_'), 'on' if r['profile'].endswith('on') else 'off'))
+            json.dump({'property': pid, 'fn': r.get('replay_fn', r['fn']), 'kind': r['kind'], 'profile': r['profile'], 'args': r['model_args'], 'model': r.get('model'),
                        'native': r.get('native_replay'), 'sites': r.get('sites')}, open(path, 'w'), indent=1, default=str)
             print('  counterexample %s(%s) [%s]: %s' % (r['fn'], ', '.join(r['model_args']), r['profile'], r.get('native_replay', '')[:200]))
             print('VIOLATION property=%s replay=%s' % (pid, path))
